@@ -238,6 +238,9 @@ def check(ctx):
     ctx.floor('A14', 12, 'relation instances')
     ctx.floor('A7', 6, 'dispatch chains')
     removal_always_applied(ctx)
+    # constraining a copy must not add the constraint to the graph it was copied from
+    from ..rules import shared as _sh13
+    _sh13.check_constructor_store(ctx)
 
 
 from ..selftest import V  # noqa: E402
